@@ -11,10 +11,12 @@
 #include <vector>
 #include <errno.h>
 #include <string.h>
+#include <math.h>
 
 namespace {
 
-enum { OP_SCHED_NOW = 1, OP_SCHED_FUT, OP_CANCEL, OP_SLEEP, OP_YIELD, OP_BEHAV, OP_MAIN_SLEEP, OP_EXTRA_REF, OP_BULK_SCHED };
+enum { OP_SCHED_NOW = 1, OP_SCHED_FUT, OP_CANCEL, OP_SLEEP, OP_YIELD, OP_BEHAV, OP_MAIN_SLEEP, OP_EXTRA_REF, OP_BULK_SCHED, OP_MEGA_SCHED };
+// OP_MEGA_SCHED: a = count, b = first task, c = delay class (all timed, all due soon): hundreds of thousands of timers pending at once
 enum { B_SCHED_NOW = 1, B_SCHED_FUT, B_SCHED_THEN_CANCEL, B_RESCHED_SELF, B_CANCEL_OTHER };
 static const uint64_t FAR = 100000000000000000ull; // 1e17 ns (3 years): only the accelerated clock of a long fair tail gets there
 
@@ -84,6 +86,8 @@ void do_schedule(Ctx &c, TaskM &t, bool now_kind, int cls) {
             uint64_t n = 0;
             aws_high_res_clock_get_ticks(&n);
             when = n > 1000000 ? n - 1000000 : 1;
+        } else if (cls == 10) {
+            when = UINT64_MAX; // parked for ever: never due; the inner scheduler reports this very value for "nothing scheduled" too
         } else if (cls == 8) {
             when = UINT64_MAX - 5; // does not fit a positive int64 delay: the scheduler thread polls
         } else {
@@ -94,7 +98,8 @@ void do_schedule(Ctx &c, TaskM &t, bool now_kind, int cls) {
         }
     }
     t.time = when;
-    t.far = (!now_kind && (cls == 7 || cls == 8));
+    t.far = (!now_kind && (cls == 7 || cls == 8 || cls == 10));
+    if (!now_kind && cls == 10) sim::probe("task_parked_at_UINT64_MAX");
     uint64_t inst = t.instances;
     struct aws_thread_scheduler *ts = t.peer ? c.peer : c.ts;
     if (t.peer && sim::self() == c.sched_tid) sim::probe("task_handed_to_peer_scheduler_from_first_schedulers_thread");
@@ -232,6 +237,12 @@ void client_fn(void *arg) {
                 }
                 sim::probe("bulk_schedule");
                 break;
+            case OP_MEGA_SCHED: {
+                size_t n = (size_t)op.a > c.tasks.size() ? c.tasks.size() : (size_t)op.a;
+                for (size_t k = 0; k < n; k++) do_schedule(c, c.tasks[((size_t)op.b + k) % c.tasks.size()], false, (int)(op.c % 5));
+                sim::probe(n > 458752 ? "mega_schedule_over_458752_timers" : n > 100000 ? "mega_schedule_over_100000_timers" : "mega_schedule");
+                break;
+            }
             case OP_EXTRA_REF:
                 if (c.client_ref_mask & (1u << ca->idx)) { // only while holding a reference of its own
                     c.total_refs++;
@@ -409,6 +420,7 @@ void gen(uint64_t seed, int tier, sim::Plan &p) {
     if (r.chance(0.04)) p.cfg["create_fail"] = r.pick(std::vector<int64_t>{EAGAIN, ENOMEM, EPERM, EINVAL});
     if (p.get("faults") && r.chance(0.3)) p.cfg["p_pushfail"] = r.pick(std::vector<int64_t>{100000, 500000, 1000000});
     bool allow_max = r.chance(0.03);
+    bool allow_parked = r.chance(0.1);
     bool scale = nclients > 0 && r.chance(tier ? 0.03 : 0.015);
     if (scale) { nt = (int)r.range(100, 250); p.cfg["ntasks"] = nt; }
     // a quarter of the plans run a second scheduler next to the first; the last tasks of the pool belong to it
@@ -440,6 +452,7 @@ void gen(uint64_t seed, int tier, sim::Plan &p) {
                 op.kind = OP_SCHED_FUT; op.a = r.range(0, nt - 1);
                 op.b = r.pick(std::vector<int64_t>{0, 1, 2, 3, 3, 4, 5, 6, 7, 7, 7, 9});
                 if (allow_max && r.chance(0.2)) op.b = 8;
+                if (allow_parked && r.chance(0.2)) op.b = 10;
             } else if (k < 80) { op.kind = OP_CANCEL; op.a = r.range(0, nt - 1); }
             else if (k < 83) { op.kind = OP_EXTRA_REF; }
             else if (k < 92) { op.kind = OP_SLEEP; op.a = r.pick(std::vector<int64_t>{1, 1000, 1000000, 1000000000ll, 31000000000ll, 40000000000ll}); }
@@ -453,22 +466,47 @@ void gen(uint64_t seed, int tier, sim::Plan &p) {
     }
     p.cfg["soft_budget"] = 60000;
     p.cfg["hard_budget"] = 3000000;
+    if (nclients > 0 && r.chance(tier ? 0.0008 : 0.0004)) {
+        // mega plan: one parked task, then 20 000 - 1 000 000 timers pending at once (the timed queue's storage passes every growth step up to
+        // tens of MiB), all due within a second; afterwards main lingers so that the scheduler thread goes through its idle path
+        double e = (double)r.range(0, 1000) / 1000.0;
+        int64_t n = (int64_t)(20000.0 * pow(50.0, e));
+        p.ops.clear();
+        p.cfg.erase("peer_tasks"); p.cfg.erase("peer_linger"); p.cfg.erase("create_fail"); p.cfg.erase("p_pushfail");
+        p.cfg["ntasks"] = n + 1;
+        p.cfg["nclients"] = 1;
+        p.cfg["client_ref_mask"] = 0;
+        p.cfg["main_release_mode"] = 0;
+        p.cfg["strat"] = 1;
+        p.cfg["p_switch"] = r.pick(std::vector<int64_t>{200, 1000, 5000});
+        p.cfg["alloc_yield"] = 0;
+        p.cfg["faults"] = 0; p.cfg.erase("p_spurious"); p.cfg.erase("p_stall"); p.cfg.erase("p_clockjump");
+        sim::Op park; park.thr = 1; park.kind = OP_SCHED_FUT; park.a = 0; park.b = 10;
+        if (r.chance(0.7)) p.ops.push_back(park);
+        sim::Op m; m.thr = 1; m.kind = OP_MEGA_SCHED; m.a = n; m.b = 1; m.c = r.range(2, 4);
+        p.ops.push_back(m);
+        sim::Op sl; sl.thr = 0; sl.kind = OP_MAIN_SLEEP; sl.a = r.pick(std::vector<int64_t>{2000000000ll, 45000000000ll, 100000000000ll});
+        p.ops.push_back(sl);
+        p.cfg["soft_budget"] = 12 * n + 200000;
+        p.cfg["hard_budget"] = 40 * n + 3000000;
+    }
 }
 
 std::string op_text(const sim::Op &op) {
     char b[160];
-    static const char *dc[] = {"now+0", "now+1ns", "now+1us", "now+1ms", "now+1s", "now+31s", "now+2h", "now+FAR(1e17ns)", "UINT64_MAX-5", "now-1ms"};
+    static const char *dc[] = {"now+0", "now+1ns", "now+1us", "now+1ms", "now+1s", "now+31s", "now+2h", "now+FAR(1e17ns)", "UINT64_MAX-5", "now-1ms", "UINT64_MAX (parked)"};
     static const char *ba[] = {"?", "schedule_now", "schedule_future", "schedule_future(FAR) then cancel", "re-schedule itself", "cancel (if far-future and pending)"};
     const char *who = op.thr == 0 ? "main" : "client";
     switch (op.kind) {
         case OP_SCHED_NOW: snprintf(b, sizeof b, "%s%d: schedule_now(task %lld)", who, op.thr, (long long)op.a); break;
-        case OP_SCHED_FUT: snprintf(b, sizeof b, "%s%d: schedule_future(task %lld, %s)", who, op.thr, (long long)op.a, dc[op.b % 10]); break;
+        case OP_SCHED_FUT: snprintf(b, sizeof b, "%s%d: schedule_future(task %lld, %s)", who, op.thr, (long long)op.a, dc[op.b % 11]); break;
         case OP_CANCEL: snprintf(b, sizeof b, "%s%d: cancel(task %lld) [only if far-future and its schedule call has returned]", who, op.thr, (long long)op.a); break;
         case OP_SLEEP: case OP_MAIN_SLEEP: snprintf(b, sizeof b, "%s%d: sleep(%lld ns virtual)", who, op.thr, (long long)op.a); break;
         case OP_YIELD: snprintf(b, sizeof b, "%s%d: yield", who, op.thr); break;
         case OP_BULK_SCHED: snprintf(b, sizeof b, "%s%d: schedule %lld tasks in a row (from task %lld, mixed now/future)", who, op.thr, (long long)op.a, (long long)op.b); break;
+        case OP_MEGA_SCHED: snprintf(b, sizeof b, "%s%d: schedule %lld timers in a row (from task %lld, all %s)", who, op.thr, (long long)op.a, (long long)op.b, dc[op.c % 5]); break;
         case OP_EXTRA_REF: snprintf(b, sizeof b, "%s%d: acquire an extra reference (released before its own)", who, op.thr); break;
-        case OP_BEHAV: snprintf(b, sizeof b, "behaviour: task %lld when RUN does %s(task %lld, %s)", (long long)op.a, ba[op.c % 6], (long long)op.d, dc[op.b % 10]); break;
+        case OP_BEHAV: snprintf(b, sizeof b, "behaviour: task %lld when RUN does %s(task %lld, %s)", (long long)op.a, ba[op.c % 6], (long long)op.d, dc[op.b % 11]); break;
         default: snprintf(b, sizeof b, "?");
     }
     return b;
